@@ -146,7 +146,24 @@ impl LinearCombination {
         final(self).terms@.len() == old(self).terms@.len(),
         forall|i: int| 0 <= i < old(self).terms@.len() ==> (#[trigger] final(self).terms@[i]).1 == old(self).terms@[i].1,   // name=lc.mul_assign.labels_unchanged props=C16
 //@body
-//@rw 1 /self\.terms\.iter_mut\(\)\.for_each\(\|\(c, _\)\| (.*)\);/ => let ghost ts0__ = self.terms@; let mut i__: usize = 0;
+//@rw * /(?s)self\s*\.terms\s*\.iter_mut\(\)\s*\.filter\(\|\((\w+), (\w+)\)\| (.*?)\)\s*\.for_each\(\|\(c, _\)\| ([^;]*)\);/ => let ghost ts0__ = self.terms@; let mut i__: usize = 0;
+        while i__ < self.terms.len()
+            invariant i__ <= self.terms@.len(), self.terms@.len() == ts0__.len(), self.label == old(self).label, ts0__ == old(self).terms@,
+                forall|j: int| 0 <= j < i__ ==> (#[trigger] self.terms@[j]).1 == ts0__[j].1 && self.terms@[j].0@ == f_mul(coeff@, ts0__[j].0@),
+                forall|j: int| i__ <= j < ts0__.len() ==> self.terms@[j] == ts0__[j],
+            decreases self.terms@.len() - i__
+        {
+            let (mut c__, t__) = clone_term(&self.terms[i__]);
+            let keep__ = { let \1 = &c__; let \2 = &t__; \3 };
+            if keep__ { let c = &mut c__; \4; }
+            proof { broadcast use ax_mul_comm; }
+            self.terms.set(i__, (c__, t__));
+            i__ += 1;
+        }
+        proof {
+            assert forall|sigma: spec_fn(Seq<char>) -> FS| lc_value(self.terms@, sigma) == f_mul(coeff@, lc_value(ts0__, sigma)) by { lemma_value_scaled(ts0__, self.terms@, coeff@, sigma); }
+        }
+//@rw * /self\.terms\.iter_mut\(\)\.for_each\(\|\(c, _\)\| (.*)\);/ => let ghost ts0__ = self.terms@; let mut i__: usize = 0;
         while i__ < self.terms.len()
             invariant i__ <= self.terms@.len(), self.terms@.len() == ts0__.len(), self.label == old(self).label, ts0__ == old(self).terms@,
                 forall|j: int| 0 <= j < i__ ==> (#[trigger] self.terms@[j]).1 == ts0__[j].1 && self.terms@[j].0@ == f_mul(coeff@, ts0__[j].0@),
